@@ -26,8 +26,8 @@ META = {
     "ready": True,
 }
 
-DT = {"f64": "F64", "f32": "F32", "bf16": "BF16"}
-TOL = {"f64": 1e-9, "f32": 1e-4, "bf16": 5e-2}
+DT = {"f64": "F64", "f32": "F32", "bf16": "BF16", "f16": "F16"}
+TOL = {"f64": 1e-9, "f32": 1e-4, "bf16": 5e-2, "f16": 2e-2}
 
 
 def _torch():
@@ -37,12 +37,12 @@ def _torch():
 
 def tdtype(tag):
     torch = _torch()
-    return {"f64": torch.float64, "f32": torch.float32, "bf16": torch.bfloat16}[tag]
+    return {"f64": torch.float64, "f32": torch.float32, "bf16": torch.bfloat16, "f16": torch.float16}[tag]
 
 
 def tag_of(dtype) -> str:
     torch = _torch()
-    return {torch.float64: "f64", torch.float32: "f32", torch.bfloat16: "bf16"}.get(dtype, "other")
+    return {torch.float64: "f64", torch.float32: "f32", torch.bfloat16: "bf16", torch.float16: "f16"}.get(dtype, "other")
 
 
 # ---------------------------------------------------------------------------------------------
@@ -98,6 +98,30 @@ class Gen:
             m = rng.randint(1, max(1, n))
             B = torch.tensor([[rng.randint(-4, 4) / 2.0 for _ in range(m)] for _ in range(n)], dtype=torch.float64).reshape(n, m)
             return B @ B.T, None, None
+        # ---- structured matrices (quantifier audit): no eigenbasis supplied, `exact` estimates come from eigh
+        if kind == "rank1_pm":      # a a^T with a in {+c, -c}^n: one eigenvalue n c^2, the rest exactly 0
+            c = float(rng.choice((0.5, 1.0, 2.0)))
+            a = torch.tensor([rng.choice((-c, c)) for _ in range(n)], dtype=torch.float64)
+            return torch.outer(a, a).reshape(n, n), None, None
+        if kind == "equicorr":      # (1 - r) I + r 1 1^T: eigenvalue 1 - r repeated n - 1 times
+            r = float(rng.choice((0.25, 0.5, 0.75)))
+            return ((1 - r) * torch.eye(n, dtype=torch.float64) + r * torch.ones(n, n, dtype=torch.float64)), None, None
+        if kind == "dead_coord":    # a coordinate that never received a gradient: zero row and column
+            A, _, _ = self.matrix("distinct", n)
+            k = rng.randrange(n)
+            A = A.clone()
+            A[k, :] = 0.0
+            A[:, k] = 0.0
+            return A, None, None
+        if kind in ("indefinite", "neg_def"):
+            Ls = sorted(float(rng.randint(-9, 9 if kind == "indefinite" else -1)) for _ in range(n))
+            Q0 = self.orth(n)
+            A = (Q0 * torch.tensor(Ls, dtype=torch.float64).unsqueeze(0)) @ Q0.T
+            return (A + A.T) / 2, None, None
+        if kind in ("tiny", "huge", "tiny30"):
+            A, Q0, L = self.matrix("distinct", n)
+            c = {"tiny": 2.0 ** -17, "huge": 2.0 ** 17, "tiny30": 2.0 ** -100}[kind]     # powers of two: exact scaling
+            return A * c, Q0, [x * c for x in L]
         L = self.spectrum(kind, n)
         Q0 = self.orth(n)
         A = (Q0 * torch.tensor(L, dtype=torch.float64).unsqueeze(0)) @ Q0.T
@@ -110,6 +134,22 @@ class Gen:
             return torch.zeros(n, n, dtype=torch.float64)
         if kind == "random_orth":
             return self.orth(n)
+        if kind == "identity":
+            return torch.eye(n, dtype=torch.float64)
+        if kind == "neg_identity":
+            return -torch.eye(n, dtype=torch.float64)
+        if kind == "permutation":       # a signed permutation matrix
+            p = list(range(n))
+            self.ck.rng.shuffle(p)
+            s = torch.tensor([self.ck.rng.choice((-1.0, 1.0)) for _ in range(n)], dtype=torch.float64)
+            return (torch.eye(n, dtype=torch.float64) * s.unsqueeze(0))[:, p].clone()
+        if kind == "single_entry":      # `.any()` is an exact test: one entry of 2^-17, everything else zero
+            E = torch.zeros(n, n, dtype=torch.float64)
+            if n:
+                E[self.ck.rng.randrange(n), self.ck.rng.randrange(n)] = 2.0 ** -17
+            return E
+        if kind == "neg_zero":          # all entries -0.0: still "no estimate"
+            return -torch.zeros(n, n, dtype=torch.float64)
         if Q0 is None:
             Q0 = torch.linalg.eigh(A)[1] if n else A
         if kind == "exact":
@@ -134,6 +174,8 @@ class Gen:
 
 A_KINDS = ["distinct", "distinct_log", "repeated", "rankdef", "zero", "identity", "diag", "gram"]
 E_KINDS = ["zero", "exact", "exact_shuffled", "random_orth", "perturbed", "perturbed_orth", "random", "scaled_orth"]
+A_KINDS_STRUCT = ["rank1_pm", "equicorr", "dead_coord", "indefinite", "neg_def", "tiny", "huge", "tiny30"]
+E_KINDS_STRUCT = ["identity", "neg_identity", "permutation", "single_entry", "neg_zero"]
 TOLS = [0.0, 1e-5, 0.1, 10.0]
 
 
@@ -151,8 +193,8 @@ def gen_cases(ck: Check):
     reps = 6 if thorough else 1
     cases = []
 
-    def add(kind, shape, A, est, cfg, is_diag=False, dtA="f64", dtE="f64", fault=None, akind="", ekind=""):
-        cases.append({"kind": kind, "shape": list(shape), "dtA": dtA, "dtE": dtE,
+    def add(kind, shape, A, est, cfg, is_diag=False, dtA="f64", dtE="f64", fault=None, akind="", ekind="", layout=None, tags=()):
+        cases.append({"kind": kind, "shape": list(shape), "dtA": dtA, "dtE": dtE, "layout": layout, "tags": list(tags),
                       "A": None if A is None else hexrows(A.to(tdtype(dtA))) if A.dim() == 2 else None,
                       "Afill": None if A is None or A.dim() == 2 else float(A.reshape(-1)[0]) if A.numel() else 0.0,
                       "est": None if est is None else hexrows(est.to(tdtype(dtE))),
@@ -222,6 +264,89 @@ def gen_cases(ck: Check):
                     add("dtype", (n, n), A, g.estimate("zero", n, A, Q0), ["qr", 2, 1e-5], dtA=dtA, dtE=dtE, akind="distinct", ekind="zero")
                 add("dtype", (n, n), A, None, ["eigh", True, ""], dtA=dtA, akind="distinct")
                 add("dtype", (n, n), A, None, ["eigh", False, ""], dtA=dtA, akind="distinct")
+
+    # ---------------- quantifier audit: classes the property names or plainly allows, in BOTH tiers ----------------
+    for _ in range(3 if thorough else 1):
+        # structured matrices through both methods
+        for n in (2, 3, 5, 8):
+            for ak in A_KINDS_STRUCT:
+                A, Q0, L = g.matrix(ak, n)
+                add("eigh", (n, n), A, None, ["eigh", True, ""], akind=ak, tags=["structured_matrix"])
+                for ek in ("zero", "exact", "random_orth"):
+                    add("qr", (n, n), A, g.estimate(ek, n, A, Q0), ["qr", rng.randint(1, 4), rng.choice(TOLS)], akind=ak, ekind=ek, tags=["structured_matrix"])
+        # structured estimates
+        for n in (2, 4, 7):
+            for ak in ("distinct", "repeated", "zero", "diag"):
+                A, Q0, L = g.matrix(ak, n)
+                for ek in E_KINDS_STRUCT:
+                    add("qr", (n, n), A, g.estimate(ek, n, A, Q0), ["qr", rng.randint(1, 4), rng.choice(TOLS)], akind=ak, ekind=ek, tags=["structured_estimate"])
+        # float32 on every dispatch path and estimate kind (tags, control flow, exceptions; values at 1e-4)
+        for n in (1, 2, 3, 5, 8):
+            for ak in A_KINDS:
+                A, Q0, L = g.matrix(ak, n)
+                add("eigh", (n, n), A, None, ["eigh", rng.random() < 0.5, ""], dtA="f32", akind=ak, tags=["f32_path"])
+                for ek in ("zero", "exact", "random_orth", "perturbed_orth"):
+                    add("qr", (n, n), A, g.estimate(ek, n, A, Q0), ["qr", rng.randint(1, 4), rng.choice(TOLS)], dtA="f32", dtE=rng.choice(("f32", "f32", "bf16", "f16")),
+                        akind=ak, ekind=ek, tags=["f32_path"])
+        for dtA in ("f32", "f16", "bf16"):
+            for n in (2, 5):
+                A, Q0, L = g.matrix("diag", n)
+                add("isdiag", (n, n), A, None, ["eigh", True, ""], is_diag=True, dtA=dtA, akind="diag", tags=["lowprec_dispatch"])
+                add("isdiag", (n, n), A, g.estimate("random_orth", n, A, Q0), ["qr", 1, 1e-5], is_diag=True, dtA=dtA, dtE=dtA, akind="diag", tags=["lowprec_dispatch"])
+                add("other", (n, n), A, None, ["other"], dtA=dtA, akind="diag", tags=["lowprec_dispatch"])
+                add("noest", (n, n), A, None, ["qr", 1, 1e-5], dtA=dtA, akind="diag", tags=["lowprec_dispatch"])
+                add("eigh", (n, n), A, None, ["eigh", True, ""], dtA=dtA, akind="diag", tags=["lowprec_dispatch"])
+                add("eigh", (n, n), A, None, ["eigh", False, ""], dtA=dtA, akind="diag", tags=["lowprec_dispatch"])
+                add("qr", (n, n), A, g.estimate("random_orth", n, A, Q0), ["qr", 2, 0.0], dtA=dtA, dtE="f32", akind="diag", ekind="random_orth", tags=["lowprec_dispatch"])
+            for sh in ((1, 1), (1,), (), (2, 3), (2, 2, 2)):
+                add("shape", sh, torch.full(sh, float(rng.choice((-2, 0, 3))), dtype=torch.float64), None, ["eigh", True, ""], dtA=dtA, tags=["lowprec_dispatch"])
+        # one-element tensors holding 0, a negative number, a huge number
+        for v in (0.0, -3.0, 1e300):
+            for cfg in (["eigh", True, ""], ["qr", 2, 1e-5], ["other"]):
+                add("shape", (1, 1), torch.full((1, 1), v, dtype=torch.float64), torch.zeros(1, 1, dtype=torch.float64) if cfg[0] == "qr" else None, cfg, tags=["one_element_values"])
+        # sizes beyond 10 in the tie (the model costs O(n^4) list steps per product: few cases)
+        for n, mi in ((16, 2), (33, 1), (64, 1)):
+            A, Q0, L = g.matrix("distinct_log", n)
+            for dtA in ("f64", "f32"):
+                add("eigh", (n, n), A, None, ["eigh", True, ""], dtA=dtA, akind="distinct_log", tags=["size_gt_10"])
+                add("qr", (n, n), A, g.estimate("zero", n, A, Q0), ["qr", 2, 1e-5], dtA=dtA, dtE=dtA, akind="distinct_log", ekind="zero", tags=["size_gt_10"])
+                add("isdiag", (n, n), A, None, ["eigh", True, ""], is_diag=True, dtA=dtA, akind="distinct_log", tags=["size_gt_10"])
+            add("qr", (n, n), A, g.estimate("random_orth", n, A, Q0), ["qr", mi, 0.0], akind="distinct_log", ekind="random_orth", tags=["size_gt_10"])
+            add("qr", (n, n), A, g.estimate("exact", n, A, Q0), ["qr", 1, 1e-5], dtA="f32", dtE="f32", akind="distinct_log", ekind="exact", tags=["size_gt_10"])
+        # max_iterations 9..50 in the quick tier too, budget used up (tolerance 0) and not (1e-5)
+        for n, mi, tol in ((3, 9, 0.0), (4, 13, 0.0), (5, 25, 0.0), (3, 50, 0.0), (6, 50, 1e-5), (4, 37, 1e-5)):
+            A, Q0, L = g.matrix("distinct", n)
+            add("qr", (n, n), A, g.estimate("random_orth", n, A, Q0), ["qr", mi, tol], akind="distinct", ekind="random_orth", tags=["max_iterations_gt_8"])
+        # tolerances outside [0, inf): inf > tolerance decides whether the first iteration is made
+        for tol in (math.inf, math.nan, -1.0, -math.inf, 5e-324, 1e300):
+            for ek in ("random_orth", "exact"):
+                n = rng.choice((2, 3, 4))
+                A, Q0, L = g.matrix("distinct", n)
+                add("qr", (n, n), A, g.estimate(ek, n, A, Q0), ["qr", 3, tol], akind="distinct", ekind=ek, tags=["special_tolerance"])
+        # non-default memory layouts of A and of the estimate (column-major; a window of a larger buffer)
+        for layout in ("T", "offset"):
+            for n in (2, 5, 9):
+                A, Q0, L = g.matrix(rng.choice(("distinct", "gram")), n)
+                add("eigh", (n, n), A, None, ["eigh", True, ""], akind="distinct", layout=layout, tags=["memory_layout"])
+                add("qr", (n, n), A, g.estimate("random_orth", n, A, Q0), ["qr", 2, 0.0], akind="distinct", ekind="random_orth", layout=layout, tags=["memory_layout"])
+                add("qr", (n, n), A, g.estimate("zero", n, A, Q0), ["qr", 2, 0.0], akind="distinct", ekind="zero", layout=layout, tags=["memory_layout"])
+                add("isdiag", (n, n), A, None, ["qr", 2, 0.0], is_diag=True, akind="distinct", layout=layout, tags=["memory_layout"])
+        # call forms: default config (no config argument), subclass of EighEigenvectorConfig, a RootInvConfig (EigenConfig)
+        for n in (2, 4):
+            A, Q0, L = g.matrix("distinct", n)
+            add("eigh", (n, n), A, None, ["default"], akind="distinct", tags=["call_form"])
+            add("isdiag", (n, n), A, None, ["default"], is_diag=True, akind="distinct", tags=["call_form"])
+            add("other", (n, n), A, g.estimate("random_orth", n, A, Q0), ["other_sub_eigh"], akind="distinct", tags=["call_form"])
+            add("other", (n, n), A, g.estimate("random_orth", n, A, Q0), ["other_eigenconfig"], akind="distinct", tags=["call_form"])
+        # the same call again after a different one in the same process (module-level / cached state)
+        for n in (2, 3, 5):
+            A, Q0, L = g.matrix("distinct", n)
+            B, QB, LB = g.matrix("repeated", n)
+            E = g.estimate("random_orth", n, A, Q0)
+            for cfgs in ((["qr", 2, 0.0], ["qr", 1, 10.0]), (["eigh", True, ""], ["qr", 2, 0.0])):
+                add("repeat", (n, n), A, E, cfgs[0], akind="distinct", ekind="random_orth", tags=["second_call_same_process"])
+                add("repeat", (n, n), B, g.estimate("zero", n, B, QB), cfgs[1], akind="repeated", ekind="zero", tags=["second_call_same_process"])
+                add("repeat", (n, n), A, E, cfgs[0], akind="distinct", ekind="random_orth", tags=["second_call_same_process"])
     return cases
 
 
@@ -230,6 +355,10 @@ def gen_cases(ck: Check):
 
 
 class Injected(RuntimeError):
+    pass
+
+
+class InputMutated(RuntimeError):
     pass
 
 
@@ -251,7 +380,17 @@ def build_inputs(case):
     if case["est"] is not None:
         E = torch.tensor([[float.fromhex(x) for x in row] for row in case["est"]], dtype=torch.float64)
         E = E.reshape(sh if len(sh) == 2 else E.shape).to(tdtype(case["dtE"]))
-    return A, E
+
+    def relayout(X):
+        if X is None or X.dim() != 2 or not case.get("layout"):
+            return X
+        if case["layout"] == "T":                   # same values, column-major strides
+            return X.t().contiguous().t()
+        r, c = X.shape                              # a window of a larger buffer: storage offset, row stride c + 2
+        buf = torch.full((r + 1, c + 2), 7.0, dtype=X.dtype)
+        buf[1:, 1:c + 1] = X
+        return buf[1:, 1:c + 1]
+    return relayout(A), relayout(E)
 
 
 def make_cfg(c):
@@ -259,6 +398,15 @@ def make_cfg(c):
     from dataclasses import dataclass
     if c[0] == "eigh":
         return EighEigenvectorConfig(retry_double_precision=bool(c[1]), eigen_decomp_offload_device=c[2])
+    if c[0] == "other_sub_eigh":    # `type(cfg) is EighEigenvectorConfig` is False for a subclass
+
+        @dataclass(kw_only=True)
+        class MyEigh(EighEigenvectorConfig):
+            pass
+        return MyEigh()
+    if c[0] == "other_eigenconfig":  # a root-inverse config that also is an EigenvalueDecompositionConfig
+        from matrix_functions_types import EigenConfig
+        return EigenConfig()
     if c[0] == "qr":
         return QRConfig(max_iterations=int(c[1]), tolerance=float(c[2]))
     if c[0] == "other_sub_qr":      # `type(cfg) is QRConfig` is False for a subclass
@@ -279,7 +427,8 @@ def run_impl(case):
     torch = _torch()
     import matrix_functions as mf
     A, E = build_inputs(case)
-    cfg = make_cfg(case["cfg"])
+    A_before, E_before = A.clone(), None if E is None else E.clone()
+    cfg = None if case["cfg"][0] == "default" else make_cfg(case["cfg"])
     rec = {"eigh_in": [], "eigh_out": [], "qr_in": [], "qr_out": [], "argsort": [], "oracle_exc": []}
     real_eigh, real_qr, real_argsort = torch.linalg.eigh, torch.linalg.qr, torch.Tensor.argsort
     fault = case.get("fault") or ""
@@ -323,7 +472,13 @@ def run_impl(case):
     with mock.patch.object(mf.torch.linalg, "eigh", w_eigh), mock.patch.object(mf.torch.linalg, "qr", w_qr), \
             mock.patch.object(torch.Tensor, "argsort", w_argsort):
         try:
-            Q = mf.matrix_eigenvectors(A, E, cfg, is_diagonal=case["is_diag"])
+            if cfg is None:       # the documented defaults: no estimate, DefaultEighEigenvectorConfig
+                Q = mf.matrix_eigenvectors(A, is_diagonal=True) if case["is_diag"] else mf.matrix_eigenvectors(A)
+            else:
+                Q = mf.matrix_eigenvectors(A, E, cfg, is_diagonal=case["is_diag"])
+            same = lambda x, y: x.shape == y.shape and x.dtype == y.dtype and bool(((x == y) | (x.isnan() & y.isnan())).all())  # noqa
+            if not same(A, A_before) or (E is not None and not same(E, E_before)):
+                raise InputMutated("matrix_eigenvectors modified its " + ("matrix" if not same(A, A_before) else "estimate") + " argument in place")
             if Q.numel() == 1:
                 rows = [[float(Q.reshape(-1)[0]).hex()]]
             elif Q.dim() == 2:
@@ -371,6 +526,8 @@ def cnats(l) -> str:
 
 
 def ccfg(c) -> str:
+    if c[0] == "default":
+        return "(EighCfg true)"
     if c[0] == "eigh":
         return f"(EighCfg {coq_bool(bool(c[1]))})"
     if c[0] == "qr":
@@ -469,7 +626,7 @@ def path_of(case) -> str:
     if case["is_diag"]:
         return "diagonal-flag"
     c = case["cfg"][0]
-    if c == "eigh":
+    if c in ("eigh", "default"):
         return "eigh"
     if c == "qr":
         if case["est"] is None:
@@ -505,6 +662,7 @@ def measure(ck: Check):
     count = 0
     hist = {}
     info = {}
+    sized = {}
 
     def note(path, dt, q, val, descr):
         key = f"{path}/{dt}/{q}"
@@ -544,8 +702,8 @@ def measure(ck: Check):
     for dt in ("f32", "f64"):
         u = 2.0 ** -24 if dt == "f32" else 2.0 ** -53
         for n in sizes:
-            for ak in ("distinct", "distinct_log", "repeated", "rankdef", "zero", "gram"):
-                for _ in range(reps):
+            for ak in ("distinct", "distinct_log", "repeated", "rankdef", "zero", "gram", "rank1_pm", "equicorr", "dead_coord", "indefinite", "identity", "diag"):
+                for _ in range(reps if ak in ("distinct", "distinct_log", "repeated", "rankdef", "zero", "gram") else 1):
                     A64, Q0, L = g.matrix(ak, n)
                     if ak == "distinct_log" and dt == "f32":
                         # keep cond <= 1e3 in float32
@@ -557,6 +715,7 @@ def measure(ck: Check):
                     A = (A + A.T) / 2
                     descr = {"dtype": dt, "n": n, "kind": ak, "A": hexrows(A)}
                     hist[f"{dt}/{ak}"] = hist.get(f"{dt}/{ak}", 0) + 1
+                    sized[f"{dt}/{n}"] = sized.get(f"{dt}/{n}", 0) + 2
                     # eigh path
                     Q = mf.matrix_eigenvectors(A, None, EighEigenvectorConfig())
                     o, f, r = residuals(A, Q, u)
@@ -616,7 +775,7 @@ def measure(ck: Check):
                                     "order": "max(d_i - d_{i+1}, 0) / (n u ||A||_2), d = diag(Q^T A Q)",
                                     "fixed": "max_j min_s |q_j - s q0_j|_max / (n u (cond^iterations + ||A||_2 / min gap))"},
             "informational": {k: round(v, 3) for k, v in sorted(info.items())},
-            "measured_max": table, "budget": BUDGET, "sizes": sizes, "distribution": hist}, over
+            "measured_max": table, "budget": BUDGET, "sizes": sizes, "distribution": hist, "size_dtype": sized}, over
 
 
 # ---------------------------------------------------------------------------------------------
@@ -697,6 +856,79 @@ def run(ck: Check) -> None:
                 "outcome": r["outcome"] if not r["outcome"]["ok"] else {"shape": r["outcome"]["shape"], "dtype": r["outcome"]["dt"], "first_row": [float.fromhex(x) for x in r["outcome"]["rows"][0]] if r["outcome"]["rows"] else []},
                 "agree": bools[i]}
     loop_idx = [i for i, c in enumerate(cases) if path_of(c) == "qr-loop"]
+
+    # ---- quantifier audit: measured number of generated cases per input class the property names or allows ----
+    audit: dict = {}
+
+    def bump(k, cnd=True):
+        if cnd:
+            audit[k] = audit.get(k, 0) + 1
+        else:
+            audit.setdefault(k, 0)
+
+    for c, r in zip(cases, recs):
+        p = path_of(c)
+        sh = c["shape"]
+        n = sh[0] if len(sh) == 2 and sh[0] == sh[1] else None
+        sq = n is not None
+        bump("size: 0x0", sq and n == 0)
+        bump("size: 1x1 / one-element tensors", math.prod(sh) == 1)
+        bump("size: 2..10", sq and 2 <= n <= 10)
+        bump("size: 11..64 (tie)", sq and n > 10)
+        bump("shape: not 2-D or not square", p == "shape-guard")
+        for dt in ("f64", "f32", "f16", "bf16"):
+            bump(f"dtype of A: {dt}", c["dtA"] == dt)
+        bump("dtype: estimate stored in another dtype than A", c["est"] is not None and c["dtE"] != c["dtA"])
+        bump("float32: eigendecomposition path", c["dtA"] == "f32" and p in ("eigh", "qr-zero-estimate"))
+        bump("float32: QR loop path", c["dtA"] == "f32" and p == "qr-loop")
+        bump("float32/16: diagonal flag, one-element, guards, unknown config", c["dtA"] != "f64" and p in ("diagonal-flag", "one", "shape-guard", "unknown-config", "qr-no-estimate"))
+        for t in c.get("tags", []):
+            bump("class: " + t)
+        if c["akind"]:
+            bump("matrix: " + c["akind"])
+        if c["ekind"]:
+            bump("estimate: " + c["ekind"])
+        bump("matrix exactly diagonal but NOT flagged (eigh or QR method)", c["akind"] in ("diag", "identity", "zero") and not c["is_diag"] and p in ("eigh", "qr-loop", "qr-zero-estimate"))
+        bump("matrix not diagonal but flagged diagonal", c["is_diag"] and sq and c["akind"] not in ("diag", "identity", "zero", ""))
+        bump("zero matrix with zero estimate", c["akind"] == "zero" and p == "qr-zero-estimate")
+        bump("zero matrix with non-zero estimate", c["akind"] == "zero" and p == "qr-loop")
+        if c["cfg"][0] == "qr" and p == "qr-loop":
+            mi, tol = int(c["cfg"][1]), float(c["cfg"][2])
+            bump("max_iterations <= 0", mi <= 0)
+            bump("max_iterations = 1", mi == 1)
+            bump("max_iterations 2..8", 2 <= mi <= 8)
+            bump("max_iterations 9..50", 9 <= mi <= 50)
+            bump("tolerance 0", tol == 0.0)
+            bump("tolerance 1e-5", tol == 1e-5)
+            bump("tolerance 0.1", tol == 0.1)
+            bump("tolerance 10", tol == 10.0)
+            bump("tolerance inf / nan / negative / denormal / huge", not (tol in (0.0, 1e-5, 0.1, 10.0)))
+            k = len([q for q in r["qr_out"] if q is not None])
+            bump("loop left because the relative change fell to <= tolerance", r["outcome"]["ok"] and mi >= 1 and k < mi)
+            bump("loop left because max_iterations was used up", r["outcome"]["ok"] and mi >= 1 and k == mi)
+            bump("argsort answer is not the identity permutation", r["argsort"] is not None and r["argsort"] != sorted(r["argsort"]))
+        bump("config: EighEigenvectorConfig, retry on", c["cfg"][0] == "eigh" and bool(c["cfg"][1]))
+        bump("config: EighEigenvectorConfig, retry off", c["cfg"][0] == "eigh" and not c["cfg"][1])
+        bump("config: offload device 'cpu'", c["cfg"][0] == "eigh" and c["cfg"][2] == "cpu")
+        bump("config: omitted (documented default)", c["cfg"][0] == "default")
+        bump("config: unknown class / subclass of a known one", c["cfg"][0].startswith("other"))
+        bump("QRConfig without an estimate", p == "qr-no-estimate")
+        bump("fault: eigh raises (first call / both calls)", (c.get("fault") or "").startswith("eigh"))
+        bump("fault: qr raises", (c.get("fault") or "").startswith("qr"))
+        bump("platform: eigh / qr have no kernel for the dtype (real exception)", r["oracle_raised"] and not c.get("fault"))
+    audit["measured real runs, float32, n in {16, 32, 64}"] = sum(v for k, v in meas.get("size_dtype", {}).items() if k.startswith("f32/") and int(k.split("/")[1]) >= 16)
+    audit["measured real runs, float64, n in {16, 32, 64}"] = sum(v for k, v in meas.get("size_dtype", {}).items() if k.startswith("f64/") and int(k.split("/")[1]) >= 16)
+    audit["measured: QR started at an exact eigenbasis (fixed up to signs), float32 / float64"] = sum(v for k, v in meas.get("distribution", {}).items() if k in ("fixed/f32", "fixed/f64"))
+    not_exercised = {
+        "NaN / inf entries in A or in the estimate": "outside the quantifier (symmetric PSD matrices); eigh on NaN input is LAPACK-defined",
+        "non-symmetric A": "the routine documents `assumes matrix A is symmetric`; the eigh contract is stated for symmetric input",
+        "estimate whose shape differs from A": "the model assumes equal shapes (a RuntimeError of torch.matmul otherwise); not named by the property",
+        "sizes above 64, CUDA tensors, a real offload device other than 'cpu'": "outside the quantifier / no GPU in this sandbox; the offload device only moves data",
+        "value-level tie in float32 at full precision": "values of float32 runs are compared at 1e-4 (the model computes in binary64); their dtype tags, control flow, oracle traffic and exceptions are compared exactly",
+        "bfloat16 / float16 matrices through the LAPACK paths": "no CPU kernels (linalg_eigh_cpu / geqrf_cpu not implemented): exercised as the real exception / the float64 retry, which is what the platform does",
+        "estimates with entries below 1e-150 (squares underflow in the Frobenius norm)": "torch.norm and the model's sqrt(sum of squares) may legitimately differ there; estimates are orthonormal or zero in the quantifier",
+        "accuracy of eigh/qr themselves": "measured on every run (coverage.measurement), not proved",
+    }
     ck.coverage.update({
         "evaluations": len(cases) + meas["runs"],
         "tie_cases": len(cases),
@@ -710,6 +942,8 @@ def run(ck: Check) -> None:
         "disagreements": len(bad),
         "components": COMPONENTS,
         "measurement": meas,
+        "quantifier_audit": dict(sorted(audit.items())),
+        "not_exercised": not_exercised,
     })
     ck.assumptions += [
         "oracle contracts eigh_contract / qr_contract / argsort_contract are Section hypotheses of the theorems; what LAPACK delivers is only measured (coverage.measurement)",
